@@ -68,6 +68,8 @@ def outbound(rep, g, rule, caller, dest, gas_token, check_inner):
 
 def check(P, rep):
     c = P.crates[CN]
+    # a transfer / a delivered transfer cannot die in a TTL extension of an entry that need not exist
+    check_ttl_extensions(P, rep, 'C05.R6', CN, ['interchain_transfer', 'execute'], 4)
     # ---- outbound
     if 'interchain_transfer' in c.entries:
         g = P.graph(CN, 'interchain_transfer')
